@@ -444,6 +444,12 @@ def main():
     except ImportError:
         pass
     schema_lean, tables_lean, twin = extract(a.repo)
+    try:
+        import translate_props
+        r_props = translate_props.main_from(a.repo, a.out, os.path.dirname(a.json))
+        extra.setdefault("ofxget_problems", []).extend(r_props.get("problems", []))
+    except ImportError:
+        pass
     ch1 = write_if_changed(os.path.join(a.out, "Schema.lean"), schema_lean)
     ch2 = write_if_changed(os.path.join(a.out, "Tables.lean"), tables_lean)
     write_if_changed(a.json, json.dumps(twin, indent=1, sort_keys=True, ensure_ascii=True))
